@@ -12,6 +12,18 @@ CLAIMS = {
   design_ref="DESIGN.md 3 (C01)",
   note="Trusted: gocv, go/types, SMT solvers; logging helpers have trusted frame contracts; tick overflow excluded by precondition; handler-fault paths exempt per the statement.",
   technique=TECH),
+ "C02": dict(
+  category="other",
+  text="Deductive, for all schemas / active sets / called sets: the real resolver DefaultRelationsResolver.TargetStates is proved to return a duplicate-free, defined, Require-closed target in which followed Add relations are honoured unless Remove-excluded or a Require is missing, every member is justified (called or an Add target), and no member is Removed by a member that survived the block scan; parseRequire, parseAdd, stateBlockedBy, getMissingRequires and the slice helpers carry the contracts this rests on. The unconditional Remove-consistency clause is a known finding with a replayable witness. 'other' because the block-scan closure is abstracted and the 'justified out' clause is not under contract.",
+  design_ref="DESIGN.md 3 (C02)",
+  note="Trusted: gocv, go/types, SMT solvers; step-recording/logging helpers and Transition.StatesBefore have trusted frame contracts; sort.SliceStable is modelled as an arbitrary permutation; SchemaRefs (relations mention defined states only) is a precondition established by Schema.Parse/verifyStates, not proved here.",
+  technique=TECH),
+ "C16": dict(
+  category="other",
+  text="Deductive for the lookup functions of the debugger's client store (TxAtQueueTick, TxAtMachTime, HadErrSinceTx, TxIndex with cache coherence, Tx, TxParsed, FilterIndexByCursor1): each is proved to return what a linear scan would, for all record lists satisfying the stated monotonicity preconditions; sort.Search / slices.BinarySearchFunc are used via assumed contracts whose preconditions are discharged at the call sites. Record derivation, navigation, filters and export/import are not covered, hence 'other'.",
+  design_ref="DESIGN.md 3 (C16)",
+  note="Trusted: gocv, go/types, SMT solvers, assumed contracts of sort.Search and slices.BinarySearchFunc; monotone QueueTick/TimeSum streams are preconditions (supplied by C01/C04).",
+  technique=TECH),
  "C20": dict(
   category="other",
   text="Deductive for the functions listed in the evidence: set/sequence algebra of the state-list helpers (S.Add1/Delete/Delete1/Sub/Shared/Equal/EqualOrder/Has/Unique, SRem, StatesDiff/Shared/Equal, slices helpers, ParseStates/mustParseStates, Machine readers) proved against mathematical specs for all inputs, plus a zero-annotation no-panic sweep (index/slice bounds, nil deref, nil-map write, division, explicit panic) inside every function under contract and copy/freshness postconditions of getters. Level 'other' because totality is claimed only for the swept functions and blocking is outside the verifier.",
